@@ -85,7 +85,8 @@ UNARY = {
 IDENTITY_FUNCS = {'np.asarray', 'np.array', 'np.copy', 'copy.copy',
                   'copy.deepcopy', 'np.atleast_1d', 'np.atleast_2d',
                   'float', 'np.ma.filled', 'pints.vector', 'np.squeeze',
-                  'np.expand_dims', 'np.broadcast_to', 'np.ascontiguousarray'}
+                  'np.expand_dims', 'np.broadcast_to', 'np.ascontiguousarray',
+                  'np.reshape', 'np.ravel'}
 IDENTITY_METHODS = {'reshape', 'flatten', 'copy', 'ravel', 'astype',
                     'squeeze', 'transpose', 'filled'}
 
